@@ -371,7 +371,8 @@ func (c *ctx) runShard(bin string, spec ev.ShardSpec, n int) shardResult {
 	defer cancel()
 	args := []string{"-test.run", spec.Test, "-test.timeout", "0", "-test.count", "1"}
 	args = append(args, spec.Args...)
-	cmd := exec.CommandContext(cx, bin, args...)
+	argv := append(append(append([]string(nil), spec.Wrap...), bin), args...)
+	cmd := exec.CommandContext(cx, argv[0], argv[1:]...)
 	cmd.Dir = filepath.Join(c.harness, c.engineOf(spec))
 	env := c.baseEnv(out)
 	env = append(env, "VERIF_SHARD="+spec.Name, "VERIF_PROGRESS="+prog)
